@@ -41,6 +41,10 @@ def byte(v, k):
 def disjoint(ex, p1, n1, p2, n2):
     if p1.obj is not None and p2.obj is not None and p1.obj is not p2.obj:
         return z3.BoolVal(True)
+    k1 = p1.obj.kind if p1.obj is not None else None
+    k2 = p2.obj.kind if p2.obj is not None else None
+    if (k1 == 'alloca') != (k2 == 'alloca'):
+        return z3.BoolVal(True)      # a local of the caller cannot overlap memory the caller was handed from outside
     a = ex.ptr_to_bv(p1)
     b = ex.ptr_to_bv(p2)
     w = a.size()
@@ -59,7 +63,7 @@ class LemmaOb:
         self.abstract = abstract    # list of (term, fresh const): generalise a shared subterm before solving
 
 
-def instantiate(ex, name, args, mem_old=None, mem_new=None, result=None):
+def instantiate(ex, name, args, mem_old=None, mem_new=None, result=None, labelled=False):
     """(requires, ensures) of a registered contract on caller-chosen symbolic values."""
     from vc.symex import MemView, Ctx
     c = REG[name]
@@ -73,6 +77,8 @@ def instantiate(ex, name, args, mem_old=None, mem_new=None, result=None):
     cx.ghost = {}
     cx.log = []
     pre = list(c.requires(cx))
+    if labelled:
+        return pre, list(c.ensures(cx))
     post = [e for _, e in c.ensures(cx)]
     return pre, post
 
